@@ -362,7 +362,7 @@ def run_d4(facts, rep, tier):
             # element-wise pairing: the iterator zips both operands, or the closure looks each element up in the other operand
             clo = cn.r(n["args"][0]) if n.get("args") else ""
             other = "$P1" if "$P0" in t else "$P0"
-            pairing = (".zip(" in t and "$P0" in t and "$P1" in t) or re.search(re.escape(other) + r"[^ ,()]*\.(get|contains_key|contains)\(", clo) is not None
+            pairing = (".zip(" in t and "$P0" in t and "$P1" in t) or re.search(re.escape(other) + r"[^ ,()]*\.(get|contains_key)\(", clo) is not None
             if not pairing:
                 continue
             n4 += 1
